@@ -57,7 +57,7 @@ def extract(g, X):
             raise ValueError("no resource arms")
         if not re.search(r"ref\s+op\s*=>\s*Ok\(op\.clone\(\)\)", b):
             raise ValueError("default arm is not `ref op => Ok(op.clone())`")
-        return "[" + "; ".join("(%s, %s)" % (bl(v), bl(k)) for v, k in out) + "]"
+        return "[" + "; ".join("(%s, %s)" % (bl(v), bl(k)) for v, k in X.ordered_by_key(out)) + "]"
     g.attempt([("import_op_cats", "list (list N * list N)")], "content.rs:deep_clone_op", op_cats)
 
     def props_arms():
